@@ -377,6 +377,52 @@ PickleCase(c) ==
       THEN Chk("equals-fresh-flatten", c.fresh.same_class => (c.fresh.spec = s /\ c.fresh.eq /\ c.fresh.hash_eq))
       ELSE <<>>)
 
+\* ---- C18: Python twins vs engine vs the rule ---------------------------------------------------
+NTRule(tr) == tr.tuplesub /\ tr.fields \in {"tuple_of_str", "empty_tuple"} /\ tr.make = "callable" /\ tr.asdict = "callable"
+ClassifyCase(c) ==
+  LET truth == NTRule(c.traits)  a == c.ans IN
+  Chk("is_namedtuple_class:engine", a.is_namedtuple_class[1] = truth) \o
+  Chk("is_namedtuple_class:twin", a.is_namedtuple_class[2] = truth) \o
+  Chk("is_namedtuple:engine", a.is_namedtuple[1] = truth) \o Chk("is_namedtuple:twin", a.is_namedtuple[2] = truth) \o
+  \* no class defined in Python can be a PyStructSequence
+  Chk("is_structseq_class", a.is_structseq_class[1] = FALSE /\ a.is_structseq_class[2] = FALSE /\ a.is_structseq[1] = FALSE /\ a.is_structseq[2] = FALSE) \o
+  Chk("namedtuple_fields:twins-agree", a.namedtuple_fields[1] = a.namedtuple_fields[2]) \o
+  Chk("structseq_fields:twins-agree", a.structseq_fields[1] = a.structseq_fields[2]) \o
+  (IF Has(a, "instance") THEN Chk("instance", a.instance[1] = truth /\ a.instance[2] = truth /\ a.instance[3] = truth) ELSE <<>>)
+ClassifyReal(c) ==
+  LET a == c.ans IN
+  Chk(c.name \o ":namedtuple", a.is_namedtuple_class[1] = c.truth_nt /\ a.is_namedtuple_class[2] = c.truth_nt) \o
+  Chk(c.name \o ":structseq", a.is_structseq_class[1] = c.truth_ss /\ a.is_structseq_class[2] = c.truth_ss) \o
+  Chk(c.name \o ":fields-twins-agree", a.namedtuple_fields[1] = a.namedtuple_fields[2] /\ a.structseq_fields[1] = a.structseq_fields[2])
+CacheHistory(c) == Chk("answer-is-truth", \A j \in DOMAIN c.log : c.log[j].engine = NTRule(c.log[j].traits) /\ c.log[j].twin = NTRule(c.log[j].traits))
+SortKeys(c) == Chk("engine", c.engine = TotalOrderSorted(c.keys)) \o Chk("twin", c.twin = TotalOrderSorted(c.keys))
+\* one-level flattening through the Python registry vs the engine's view vs layer D
+OneLevelCase(c) ==
+  LET t == c.t  cfg == c.cfg
+      isleaf == PredLeaf(t, cfg) \/ KindOf(t, cfg) = "leaf"
+      k == KindOf(t, cfg)
+      ord == ChildOrder(t, cfg, k)
+      kids == [i \in 1..Len(ord) |-> t.ch[ord[i]]]
+      nd == IF isleaf THEN LeafNode ELSE Flatten(t, [cfg EXCEPT !.haspred = FALSE]).spec.nodes[Len(Flatten(t, [cfg EXCEPT !.haspred = FALSE]).spec.nodes)]
+  IN IF isleaf THEN Chk("leaf-type-rejected", c.py.err = "Value") \o Chk("engine-leaf", c.eng.leaf)
+     ELSE Chk("no-error", c.py.err = "") \o
+          (IF c.py.err # "" THEN <<>> ELSE
+             Chk("children", c.py.children = kids) \o
+             Chk("entries", c.py.entries = Entries(nd) /\ c.eng.entries = Entries(nd)) \o
+             Chk("kind", c.py.kind = nd.kind /\ c.eng.kind = nd.kind) \o
+             Chk("type", c.py.type = c.eng.type /\ c.py.type = (IF nd.kind = NNONE THEN 100 ELSE TypeTag(nd.kind, IF nd.kind = NCUSTOM THEN nd.cls ELSE nd.m))) \o
+             Chk("path_entry_type", nd.kind = NNONE \/ (nd.kind = NCUSTOM /\ nd.cls \in {1, 4}) \/ c.py.pet = EntryCls(nd.kind, IF nd.kind = NCUSTOM THEN nd.cls ELSE nd.m)) \o
+             Chk("metadata", CASE nd.kind \in {NDICT, NODICT} -> c.py.meta = nd.keys
+                               [] nd.kind = NDDICT -> c.py.meta = <<nd.m>> \o nd.keys
+                               [] nd.kind = NDEQUE -> c.py.meta = nd.m
+                               [] nd.kind = NCUSTOM -> c.py.meta = nd.m
+                               [] OTHER -> TRUE) \o
+             Chk("unflatten_func", c.py.rebuilt = [Strip(t, [cfg EXCEPT !.haspred = FALSE]) EXCEPT !.ch = kids,
+                                                   !.keys = IF IsDictKindName(k) THEN [i \in 1..Len(ord) |-> t.keys[ord[i]]] ELSE <<>>]) \o
+             \* (derived treespecs inherit the parent's namespace; only the structure is compared here)
+             Chk("children-specs", Has(c.py, "child_specs") =>
+                    [i \in DOMAIN c.py.child_specs |-> c.py.child_specs[i].nodes] = [i \in DOMAIN c.eng.children |-> c.eng.children[i].nodes]))
+
 \* the same tree under two option sets
 XOptCase(c) ==
   LET exp == SpecEq(c.sa, c.sb) IN
@@ -447,6 +493,11 @@ Verdict(c) ==
     [] c.op = "map" -> MapCase(c)
     [] c.op = "transpose" -> TransposeCase(c)
     [] c.op = "pickle" -> PickleCase(c)
+    [] c.op = "classify" -> ClassifyCase(c)
+    [] c.op = "classify-real" -> ClassifyReal(c)
+    [] c.op = "cache-history" -> CacheHistory(c)
+    [] c.op = "sortkeys" -> SortKeys(c)
+    [] c.op = "onelevel" -> OneLevelCase(c)
     [] c.op = "inspect" -> InspectCase(c)
     [] OTHER -> <<"unknown-op">>
 
